@@ -16,7 +16,7 @@ LEVEL_TEXT = ("Metamorphic pair monitor over families of runs of the same real s
 LEVEL_NOTE = ("Equalities judged at 1e-9 relative to |a|*max|y|+|b| (conditioning-aware, x100 for the global cubic "
               "spline); adaptive strategies are driven with exactly representable maps only (power-of-two scales, "
               "integer shifts of integer-valued series), as the property's quantifier prescribes.")
-TECHNIQUE = "metamorphic runtime monitor (pairs / families of executions of the real strategies compared against each other)"
+TECHNIQUE = "metamorphic runtime monitor (pairs / families of executions of the real strategies compared against each other); thread-isolation monitor (concurrent vs sequential answers, first-use rounds with sys.monitoring yield injection)"
 RULE = ("family = strategy x series (2..30 points) x n x parameters, with one of: value map (generic reals, or exact "
         "maps for adaptive strategies, negative scales included), time map (generic c>0, d), single-average "
         "perturbation at a random position, unit-vector weight matrix (non-adaptive, m<=12). non-trivial: "
